@@ -36,12 +36,13 @@ func vc_binlogEvent_IsValid_ensures_iff(ev binlogEvent, res bool) bool {
 
 // ---- header accessors: total on valid buffers, equal to the documented little-endian fields ----
 
-func vc_binlogEvent_Type_requires(ev binlogEvent) bool         { return len(ev) >= 19 }
+// (weakest preconditions: each accessor needs exactly the bytes of its field; a valid buffer has all 19)
+func vc_binlogEvent_Type_requires(ev binlogEvent) bool         { return len(ev) >= 5 }
 func vc_binlogEvent_Flags_requires(ev binlogEvent) bool        { return len(ev) >= 19 }
-func vc_binlogEvent_Timestamp_requires(ev binlogEvent) bool    { return len(ev) >= 19 }
-func vc_binlogEvent_ServerID_requires(ev binlogEvent) bool     { return len(ev) >= 19 }
-func vc_binlogEvent_Length_requires(ev binlogEvent) bool       { return len(ev) >= 19 }
-func vc_binlogEvent_NextPosition_requires(ev binlogEvent) bool { return len(ev) >= 19 }
+func vc_binlogEvent_Timestamp_requires(ev binlogEvent) bool    { return len(ev) >= 4 }
+func vc_binlogEvent_ServerID_requires(ev binlogEvent) bool     { return len(ev) >= 9 }
+func vc_binlogEvent_Length_requires(ev binlogEvent) bool       { return len(ev) >= 13 }
+func vc_binlogEvent_NextPosition_requires(ev binlogEvent) bool { return len(ev) >= 17 }
 
 func vc_binlogEvent_Type_ensures_field(ev binlogEvent, res byte) bool { return res == ev[4] }
 func vc_binlogEvent_Flags_ensures_field(ev binlogEvent, res uint16) bool {
@@ -64,18 +65,18 @@ func vc_binlogEvent_NextPosition_ensures_field(ev binlogEvent, res int64) bool {
 
 // ---- event classification by type code (codes from the manual) ----
 
-func vc_binlogEvent_IsFormatDescription_requires(ev binlogEvent) bool { return len(ev) >= 19 }
-func vc_binlogEvent_IsQuery_requires(ev binlogEvent) bool             { return len(ev) >= 19 }
-func vc_binlogEvent_IsRotate_requires(ev binlogEvent) bool            { return len(ev) >= 19 }
-func vc_binlogEvent_IsXID_requires(ev binlogEvent) bool               { return len(ev) >= 19 }
-func vc_binlogEvent_IsIntVar_requires(ev binlogEvent) bool            { return len(ev) >= 19 }
-func vc_binlogEvent_IsRand_requires(ev binlogEvent) bool              { return len(ev) >= 19 }
-func vc_binlogEvent_IsPreviousGTIDs_requires(ev binlogEvent) bool     { return len(ev) >= 19 }
-func vc_binlogEvent_IsRowsQuery_requires(ev binlogEvent) bool         { return len(ev) >= 19 }
-func vc_binlogEvent_IsTableMap_requires(ev binlogEvent) bool          { return len(ev) >= 19 }
-func vc_binlogEvent_IsWriteRows_requires(ev binlogEvent) bool         { return len(ev) >= 19 }
-func vc_binlogEvent_IsUpdateRows_requires(ev binlogEvent) bool        { return len(ev) >= 19 }
-func vc_binlogEvent_IsDeleteRows_requires(ev binlogEvent) bool        { return len(ev) >= 19 }
+func vc_binlogEvent_IsFormatDescription_requires(ev binlogEvent) bool { return len(ev) >= 5 }
+func vc_binlogEvent_IsQuery_requires(ev binlogEvent) bool             { return len(ev) >= 5 }
+func vc_binlogEvent_IsRotate_requires(ev binlogEvent) bool            { return len(ev) >= 5 }
+func vc_binlogEvent_IsXID_requires(ev binlogEvent) bool               { return len(ev) >= 5 }
+func vc_binlogEvent_IsIntVar_requires(ev binlogEvent) bool            { return len(ev) >= 5 }
+func vc_binlogEvent_IsRand_requires(ev binlogEvent) bool              { return len(ev) >= 5 }
+func vc_binlogEvent_IsPreviousGTIDs_requires(ev binlogEvent) bool     { return len(ev) >= 5 }
+func vc_binlogEvent_IsRowsQuery_requires(ev binlogEvent) bool         { return len(ev) >= 5 }
+func vc_binlogEvent_IsTableMap_requires(ev binlogEvent) bool          { return len(ev) >= 5 }
+func vc_binlogEvent_IsWriteRows_requires(ev binlogEvent) bool         { return len(ev) >= 5 }
+func vc_binlogEvent_IsUpdateRows_requires(ev binlogEvent) bool        { return len(ev) >= 5 }
+func vc_binlogEvent_IsDeleteRows_requires(ev binlogEvent) bool        { return len(ev) >= 5 }
 
 func vc_binlogEvent_IsFormatDescription_ensures_code(ev binlogEvent, res bool) bool {
 	return res == (ev[4] == 15)
@@ -105,13 +106,13 @@ func vc_binlogEvent_IsDeleteRows_ensures_code(ev binlogEvent, res bool) bool {
 }
 
 func vc_mysql56BinlogEvent_IsGTID_requires(ev mysql56BinlogEvent) bool {
-	return len(ev.binlogEvent) >= 19
+	return len(ev.binlogEvent) >= 5
 }
 func vc_mysql56BinlogEvent_IsGTID_ensures_code(ev mysql56BinlogEvent, res bool) bool {
 	return res == (ev.binlogEvent[4] == 33)
 }
 func vc_mariadbBinlogEvent_IsGTID_requires(ev mariadbBinlogEvent) bool {
-	return len(ev.binlogEvent) >= 19
+	return len(ev.binlogEvent) >= 5
 }
 func vc_mariadbBinlogEvent_IsGTID_ensures_code(ev mariadbBinlogEvent, res bool) bool {
 	return res == (ev.binlogEvent[4] == 162)
